@@ -3,6 +3,7 @@ package rules
 import (
 	"strconv"
 	"fmt"
+	"os"
 	"go/ast"
 	"go/token"
 	"go/types"
@@ -1114,4 +1115,164 @@ func finalStoreIs(g *eng.Graph, info *types.Info, start *eng.GNode, base eng.Que
 		}
 	}
 	return true, token.NoPos, ""
+}
+
+// defAt is one definition of a local variable that reaches a node: rhs is the assigned expression (nil: declared
+// without a value); for `a, b := f()` rhs is the call and tuple tells which result.
+type defAt struct {
+	n     *eng.GNode
+	rhs   ast.Expr
+	tuple int // -1: rhs is the value itself
+}
+
+// reachingDefs lists the definitions of the local v that reach `at` on paths feasible under the assumption.
+func reachingDefs(g *eng.Graph, info *types.Info, at *eng.GNode, v *types.Var, assumed func(eng.Fact) bool) []defAt {
+	inf := g.Infeasible(assumed)
+	feasible := g.Reach(eng.Query{FromEntry: true, Assume: assumed, AvoidEdge: inf})
+	var defs []defAt
+	isDef := map[*eng.GNode]bool{}
+	add := func(n *eng.GNode, lhs []ast.Expr, rhs []ast.Expr) {
+		for i, l := range lhs {
+			lid, isL := ast.Unparen(l).(*ast.Ident)
+			if !isL || info.ObjectOf(lid) != types.Object(v) {
+				continue
+			}
+			isDef[n] = true
+			switch {
+			case len(lhs) == len(rhs):
+				defs = append(defs, defAt{n, rhs[i], -1})
+			case len(rhs) == 1:
+				defs = append(defs, defAt{n, rhs[0], i})
+			case len(rhs) == 0:
+				defs = append(defs, defAt{n, nil, -1})
+			}
+		}
+	}
+	for _, n := range g.Nodes {
+		switch t := n.Node.(type) {
+		case *ast.AssignStmt:
+			add(n, t.Lhs, t.Rhs)
+		case *ast.ValueSpec:
+			var lhs []ast.Expr
+			for _, nm := range t.Names {
+				lhs = append(lhs, nm)
+			}
+			add(n, lhs, t.Values)
+		case *ast.DeclStmt:
+			if gd, ok := t.Decl.(*ast.GenDecl); ok {
+				for _, sp := range gd.Specs {
+					if vs, ok := sp.(*ast.ValueSpec); ok {
+						var lhs []ast.Expr
+						for _, nm := range vs.Names {
+							lhs = append(lhs, nm)
+						}
+						add(n, lhs, vs.Values)
+					}
+				}
+			}
+		}
+	}
+	var out []defAt
+	for _, d := range defs {
+		if !feasible[d.n] {
+			continue
+		}
+		r := g.Reach(eng.Query{FromAt: []*eng.GNode{d.n}, Assume: assumed, AvoidEdge: inf, AvoidNode: func(m *eng.GNode) bool { return isDef[m] && m != at }})
+		if r[at] {
+			out = append(out, d)
+		}
+	}
+	return out
+}
+
+// valueAt follows copies of locals backwards from node `at` under the assumption: the result is the expression that
+// produced the value (a call, a literal, a parameter, ...) together with the node where it was produced and, for
+// a multi-value call, which result. unique is false when two different definitions reach the use.
+func valueAt(g *eng.Graph, info *types.Info, body ast.Node, at *eng.GNode, e ast.Expr, assumed func(eng.Fact) bool) (src ast.Expr, where *eng.GNode, tuple int, unique bool) {
+	tuple = -1
+	where = at
+	for depth := 0; depth < 6; depth++ {
+		e = ast.Unparen(e)
+		id, isId := e.(*ast.Ident)
+		if !isId {
+			return e, where, tuple, true
+		}
+		v, isV := info.ObjectOf(id).(*types.Var)
+		if !isV || v.IsField() || !isDeclaredIn(info, body, v) {
+			return e, where, tuple, true
+		}
+		ds := reachingDefs(g, info, where, v, assumed)
+		if os.Getenv("SOPVERIF_DEBUG") != "" {
+			for _, d := range ds {
+				fmt.Fprintf(os.Stderr, "valueAt %s at %s: def %s\n", v.Name(), g.P.Rel(where.Node.Pos()), g.P.Rel(d.n.Node.Pos()))
+			}
+		}
+		if len(ds) != 1 {
+			return e, where, tuple, len(ds) == 0
+		}
+		d := ds[0]
+		if d.rhs == nil {
+			return nil, d.n, -1, true // declared without a value
+		}
+		if d.tuple >= 0 {
+			return d.rhs, d.n, d.tuple, true
+		}
+		e, where = d.rhs, d.n
+	}
+	return e, where, tuple, true
+}
+
+// reachingFieldStore finds the stores into a field of the struct behind the local resV (assignments `resV.a.F = x`, or
+// the key F of a composite literal when litKey is given) that reach node rn on paths feasible under the assumption
+// without being overwritten: the value and node of the last one found, how many reach, and whether rn is also reached without any.
+func reachingFieldStore(g *eng.Graph, info *types.Info, rn *eng.GNode, resV *types.Var, isField func(ast.Expr) bool, litKey string, assumed func(eng.Fact) bool) (val ast.Expr, at *eng.GNode, n int, bare bool) {
+	inf := g.Infeasible(assumed)
+	feasible := g.Reach(eng.Query{FromEntry: true, Assume: assumed, AvoidEdge: inf})
+	var stores []*eng.GNode
+	vals := map[*eng.GNode]ast.Expr{}
+	for _, m := range g.Nodes {
+		if !feasible[m] || m.Node == nil {
+			continue
+		}
+		eng.InspectNoLit(m.Node, func(x ast.Node) bool {
+			switch t := x.(type) {
+			case *ast.AssignStmt:
+				if len(t.Lhs) == len(t.Rhs) {
+					for i, l := range t.Lhs {
+						if isField(l) && rootIs(info, l, resV) {
+							stores = append(stores, m)
+							vals[m] = t.Rhs[i]
+						}
+					}
+				}
+			case *ast.CompositeLit:
+				if litKey == "" {
+					return true
+				}
+				for _, el := range t.Elts {
+					if kv, isKV := el.(*ast.KeyValueExpr); isKV {
+						if id, isI := kv.Key.(*ast.Ident); isI && id.Name == litKey && isField(&ast.SelectorExpr{X: ast.NewIdent("_"), Sel: id}) {
+							stores = append(stores, m)
+							vals[m] = kv.Value
+						}
+					}
+				}
+			}
+			return true
+		})
+	}
+	isStore := map[*eng.GNode]bool{}
+	for _, m := range stores {
+		isStore[m] = true
+	}
+	for _, m := range stores {
+		rr := g.Reach(eng.Query{FromAt: []*eng.GNode{m}, Assume: assumed, AvoidEdge: inf, AvoidNode: func(x *eng.GNode) bool { return isStore[x] && x != rn }})
+		if rr[rn] {
+			val, at = vals[m], m
+			n++
+		}
+	}
+	// bare: the node is also reached without any of the stores (the field keeps what it had)
+	bare = g.Reach(eng.Query{FromEntry: true, Assume: assumed, AvoidEdge: inf, AvoidNode: func(x *eng.GNode) bool { return isStore[x] && x != rn }})[rn]
+	return
 }
